@@ -526,8 +526,8 @@ func (d *c04Db) run(where string, ops []c04Op) c04DbRun {
 			d.m.rec.Fail("flags_agree", where+":conflict-flag-vs-leaves", input, fmt.Sprintf("stored Conflict flag %v with %d live leaves", obs.Fc, live))
 		}
 		if obs.Fb != (len(obs.Leaves) > 1) {
-			if obs.Fb && res == "ROk" {
-				// flags are computed before pruneRevisions removes an old tombstoned branch
+			if obs.Fb {
+				// flags are computed before pruneRevisions removes an old tombstoned branch; the stale flag stays until the next accepted write
 				d.m.rec.Fail("flags_agree", "branched-flag-stale-after-tombstoned-branch-pruned", input, fmt.Sprintf("stored Branched flag %v with %d leaves", obs.Fb, len(obs.Leaves)))
 			} else {
 				d.m.rec.Fail("flags_agree", where+":branched-flag-vs-leaves", input, fmt.Sprintf("stored Branched flag %v with %d leaves", obs.Fb, len(obs.Leaves)))
@@ -561,6 +561,7 @@ func c04Ancestry(revs []c04Rev, id string) []string {
 
 func TestVerifC04(t *testing.T) {
 	rec := vNewRecorder(t, "C04", "C04.C04_Corr")
+	rec.shardSize = 300
 	defer rec.Finish()
 	rnd := vNewRand(vSeed())
 	ctx := base.TestCtx(t)
@@ -614,14 +615,14 @@ func TestVerifC04(t *testing.T) {
 	}
 	{
 		n := len(corpusIDs)
-		for i := 0; i < 26; i++ {
-			for j := 0; j < 26; j++ {
+		for i := 0; i < 18; i++ {
+			for j := 0; j < 18; j++ {
 				a, b := corpusIDs[i], corpusIDs[j]
 				c := compareRevIDs(ctx, a, b)
 				rec.Case("corpus", "cmp", "CCmp "+cqStr(a)+" "+cqStr(b)+" ("+cqI(c)+")%Z", map[string]any{"a": a, "b": b, "r": c}, a != b)
 			}
 		}
-		pairs := vBudget(300, 5000)
+		pairs := vBudget(200, 5000)
 		for k := 0; k < pairs; k++ {
 			a, b := corpusIDs[rnd.Intn(n)], corpusIDs[rnd.Intn(n)]
 			c := compareRevIDs(ctx, a, b)
@@ -659,7 +660,7 @@ func TestVerifC04(t *testing.T) {
 	// =========== (2) bounded-exhaustive: all insertion orders of all small revision sets ===========
 	universe := []string{"1-a", "1-b", "2-a", "2-b", "3-a"}
 	maxSize := 3
-	coqEvery := 3 // emit every k-th sequence as a Coq case (all of them feed the Go monitors)
+	coqEvery := 6 // emit every k-th sequence as a Coq case (all of them feed the Go monitors)
 	if vThorough() {
 		maxSize = 4
 		coqEvery = 40
@@ -763,7 +764,7 @@ func TestVerifC04(t *testing.T) {
 
 	// =========== (3) random trees: insertion orders, pruning, encode/decode ===========
 	digests := []string{"a", "b", "ab", "b0", "", "ff", "fe", "a0"}
-	nTrees := vBudget(220, 2500)
+	nTrees := vBudget(200, 2500)
 	for it := 0; it < nTrees; it++ {
 		n := 2 + rnd.Intn(9)
 		if rnd.Chance(25) {
@@ -995,6 +996,24 @@ func TestVerifC04(t *testing.T) {
 		d := &c04Db{m: m, col: col, ctx: dctx, allowC: allowC}
 		origLimit := db.RevsLimit
 
+		// (4-corpus) fixed sequences: tombstoned branch pruned away, tombstone of a tombstone, resurrection, equal-generation siblings
+		corpusOps := []struct {
+			limit uint32
+			ops   []c04Op
+		}{
+			{3, []c04Op{{Kind: "push", Hist: []string{"1-a"}, Deleted: true}, {Kind: "push", Hist: []string{"5-a", "2-ff", "1-ff"}}, {Kind: "push", Hist: []string{"2-ff", "1-ff"}}, {Kind: "put", Parent: "5-a"}}},
+			{origLimit, []c04Op{{Kind: "push", Hist: []string{"1-a"}}, {Kind: "push", Hist: []string{"2-a", "1-a"}, Deleted: true}, {Kind: "push", Hist: []string{"3-a", "2-a", "1-a"}, Deleted: true}, {Kind: "push", Hist: []string{"1-b"}}, {Kind: "push", Hist: []string{"2-b", "1-a"}}, {Kind: "put"}}},
+			{origLimit, []c04Op{{Kind: "push", Hist: []string{"2-a", "1-a"}}, {Kind: "push", Hist: []string{"2-b", "1-a"}}, {Kind: "push", Hist: []string{"3-a", "2-b", "1-a"}, Deleted: true}, {Kind: "push", Hist: []string{"3-b", "2-a", "1-a"}, Deleted: true, NoConf: true}, {Kind: "put"}, {Kind: "push", Hist: []string{"4-a", "3-b"}, NoConf: true}}},
+			{2, []c04Op{{Kind: "put"}, {Kind: "push", Hist: []string{"2-x", "1-y"}}, {Kind: "push", Hist: []string{"4-x", "3-x", "2-x", "1-y"}}, {Kind: "push", Hist: []string{"5-x", "4-x"}, Deleted: true}}},
+		}
+		for _, c := range corpusOps {
+			d.limit = c.limit
+			db.RevsLimit = c.limit
+			r := d.run("db-corpus", c.ops)
+			rec.Case("corpus", "db_seq", r.Coq, map[string]any{"allow_conflicts": allowC, "revs_limit": c.limit, "ops": c.ops, "results": r.Results}, true)
+		}
+		db.RevsLimit = origLimit
+
 		// (4a) bounded-exhaustive: every order of pushing every node (with its full ancestry) of every forest of <= 3 nodes
 		d.limit = origLimit
 		small := []string{"1-a", "1-b", "2-a", "2-b", "3-a"}
@@ -1043,7 +1062,7 @@ func TestVerifC04(t *testing.T) {
 			}
 		}
 		gen(0, nil)
-		stride := 4
+		stride := 10
 		if vThorough() {
 			stride = 1
 		}
@@ -1074,7 +1093,7 @@ func TestVerifC04(t *testing.T) {
 		}
 
 		// (4b) random op sequences over random source forests
-		nSeq := vBudget(70, 700)
+		nSeq := vBudget(55, 700)
 		for it := 0; it < nSeq; it++ {
 			d.limit = limits[it%len(limits)]
 			db.RevsLimit = d.limit
@@ -1161,5 +1180,31 @@ func TestVerifC04(t *testing.T) {
 		db.RevsLimit = origLimit
 	}
 	runDb(true, []uint32{100, 100, 3, 2})
+	// textual ids that are not in canonical form: accepted by the write path as distinct revisions although they
+	// compare equal, which makes the winner depend on map iteration order (the Coq model works on parsed ids)
+	{
+		db, dctx := SetupTestDBWithOptions(t, DatabaseContextOptions{AllowConflicts: base.Ptr(true)})
+		col, dctx := GetSingleDatabaseCollectionWithUser(dctx, t, db)
+		pushes := [][]string{{"1-abc"}, {"01-abc"}}
+		accepted := 0
+		for _, h := range pushes {
+			if doc, _, err := col.PutExistingRevWithBody(dctx, "c04-noncanonical", Body{"v": h[0]}, h, false, ExistingVersionWithUpdateToHLV); err == nil && doc != nil {
+				accepted++
+			}
+		}
+		rec.Count("adversarial", "db_noncanonical_ids", "1-abc|01-abc", true)
+		if doc, err := col.GetDocument(dctx, "c04-noncanonical", DocUnmarshalAll); err == nil && accepted == 2 {
+			seen := map[string]int{}
+			for i := 0; i < 64; i++ {
+				w, _, _ := doc.History.copy().winningRevision(dctx)
+				seen[w]++
+			}
+			if len(seen) > 1 {
+				rec.Fail("winner_perm", "noncanonical-revids-compare-equal-winner-nondeterministic", map[string]any{"allow_conflicts": true, "pushes": pushes},
+					fmt.Sprintf("both revisions accepted; winningRevision over 64 evaluations of the stored tree: %v (compareRevIDs(\"1-abc\",\"01-abc\")=%d)", seen, compareRevIDs(dctx, "1-abc", "01-abc")))
+			}
+		}
+		db.Close(dctx)
+	}
 	runDb(false, []uint32{50, 50, 3})
 }
